@@ -33,9 +33,26 @@ def classify(msg):
     return "other"
 
 
+def replay(ctx, warun):
+    import json
+    r = json.load(open(ctx.replay))["replay"]
+    f = os.path.join(ctx.tmp, "replay.wa.go")
+    open(f, "w").write(r["program"])
+    o = os.path.join(ctx.tmp, "replay.wasm")
+    p = subprocess.run([warun, "wasm", f, o], stdout=subprocess.PIPE, stderr=subprocess.STDOUT, text=True, timeout=120)
+    print("replay %s: build rc=%d %s" % (r.get("tag"), p.returncode, p.stdout.strip()[-400:]))
+    if p.returncode == 0:
+        v = subprocess.run(["node", os.path.join(vlib.VERIF, "tools", "validate.js"), o], stdout=subprocess.PIPE, text=True).stdout
+        print("  V8:", v.strip())
+        return 0 if " valid " in v else 1
+    return 1
+
+
 def run(ctx):
     tabbin = ctx.build_harness("c01tab")
     warun = ctx.build_harness("warun")
+    if ctx.replay:
+        return replay(ctx, warun)
     with vlib.Lock("gen.c01rows"):
         rows = c01_rows.emit_rows(ctx, tabbin)
         names = c01_rows.write_lean(rows, os.path.join(vlib.LEAN, "WaVerif", "Gen", "C01Rows.lean"))
